@@ -1,8 +1,265 @@
-import Driver.Proto
-/-! Protocol handler for C12 (stub until the model is built). -/
+import DeapModel.Core.GpCompile
+import Driver.C11
+/-!
+Protocol handler for C12 (GP printing / parsing / compilation).
+
+nodes, sub      as in C11
+text            a Python `str`, percent-encoded (`%XX` for every byte outside `[A-Za-z0-9_.-]`)
+mapping         `key=node;key=node;…` (`-` = empty) — `pset.mapping` keyed by token text (encoded)
+littypes        `<int>.<bool>.<float>` the type ids `eval` gives to int / bool / float literals
+funs            `name=op,name=op,…` the callables of `pset.context` by builtin op id
+vars            `name=val,…` named terminals of `pset.context`
+val             `i<int>` | `b0` | `b1` | `f<bits>`
+-/
 namespace DriverC12
+open Proto GpTree GpCompile DriverC11
+
+/-! ### text transport -/
+
+def hexVal (c : Char) : Option Nat :=
+  if '0' ≤ c ∧ c ≤ '9' then some (c.toNat - '0'.toNat)
+  else if 'a' ≤ c ∧ c ≤ 'f' then some (c.toNat - 'a'.toNat + 10)
+  else if 'A' ≤ c ∧ c ≤ 'F' then some (c.toNat - 'A'.toNat + 10)
+  else none
+
+def decodeGo : List Char → Option (List Char)
+  | [] => some []
+  | '%' :: a :: b :: rest => do
+    let x ← hexVal a; let y ← hexVal b
+    let r ← decodeGo rest
+    some (Char.ofNat (16 * x + y) :: r)
+  | '%' :: _ => none
+  | c :: rest => (decodeGo rest).map (c :: ·)
+
+def decodeText (s : String) : Option Str := if s = "-" then some [] else decodeGo s.toList
+
+def hexDigit (n : Nat) : Char := if n < 10 then Char.ofNat (48 + n) else Char.ofNat (87 + n)
+
+def plain (c : Char) : Bool := c.isAlphanum || c == '_' || c == '.' || c == '-'
+
+def encodeText (s : Str) : String :=
+  if s.isEmpty then "-" else
+  String.ofList (s.flatMap (fun c => if plain c then [c] else ['%', hexDigit (c.toNat / 16), hexDigit (c.toNat % 16)]))
+
+/-! ### literals: `eval(token)` for ints, dyadic floats, bools -/
+
+def allDigits (l : List Char) : Bool := !l.isEmpty && l.all Char.isDigit
+
+def digitsVal (l : List Char) : Nat := l.foldl (fun n c => 10 * n + (c.toNat - '0'.toNat)) 0
+
+inductive Lit
+  | int (i : Int)
+  | bool (b : Bool)
+  | flt (neg : Bool) (ip : List Char) (fp : List Char)   -- sign, integer digits, fraction digits
+
+def stripLeading0 (l : List Char) : List Char :=
+  match l.dropWhile (· == '0') with
+  | [] => ['0']
+  | r => r
+
+def stripTrailing0 (l : List Char) : List Char :=
+  match (l.reverse.dropWhile (· == '0')).reverse with
+  | [] => ['0']
+  | r => r
+
+def parseLit (s : Str) : Option Lit :=
+  if s = "True".toList then some (.bool true)
+  else if s = "False".toList then some (.bool false)
+  else
+    let (neg, body) := match s with | '-' :: r => (true, r) | r => (false, r)
+    match body.span (· != '.') with
+    | (ip, []) =>
+      -- an int literal; Python rejects leading zeros ("007" is a SyntaxError)
+      if allDigits ip ∧ (ip.length = 1 ∨ ip.head? ≠ some '0') then
+        some (.int (if neg then -(digitsVal ip : Int) else digitsVal ip))
+      else none
+    | (ip, _ :: fp) =>
+      -- Python accepts `1.` and `.5` (not a bare `.`)
+      if ip.all Char.isDigit ∧ fp.all Char.isDigit ∧ ¬ (ip.isEmpty ∧ fp.isEmpty) then some (.flt neg ip fp) else none
+
+/-- `repr` of the value -/
+def reprLit : Lit → Str
+  | .int i => (toString i).toList
+  | .bool true => "True".toList
+  | .bool false => "False".toList
+  | .flt neg ip fp => (if neg then ['-'] else []) ++ stripLeading0 ip ++ ['.'] ++ stripTrailing0 fp
+
+def litVal : Lit → Val
+  | .int i => .int i
+  | .bool b => .bool b
+  | .flt neg ip fp =>
+    let m := digitsVal (ip ++ fp)
+    let x := Float.ofNat m / Float.ofNat (10 ^ fp.length)
+    .flt (if neg then -x else x)
+
+def evLit (tInt tBool tFloat : Nat) (s : Str) : Option (Nat × Str) :=
+  (parseLit s).map (fun l => (match l with | .int _ => tInt | .bool _ => tBool | .flt .. => tFloat, reprLit l))
+
+/-! ### values and the builtin callables -/
+
+def showVal : Val → String
+  | .int i => "i" ++ toString i
+  | .bool b => if b then "b1" else "b0"
+  | .flt x => "f" ++ toString x.toBits.toNat
+
+def parseVal (s : String) : Option Val :=
+  let body := (s.drop 1).toString
+  match (s.take 1).toString with
+  | "i" => body.toInt?.map Val.int
+  | "b" => if body = "1" then some (.bool true) else if body = "0" then some (.bool false) else none
+  | "f" => body.toNat?.map (fun n => Val.flt (Float.ofBits (UInt64.ofNat n)))
+  | _ => none
+
+def isFlt : Val → Bool
+  | .flt _ => true
+  | _ => false
+
+def toI : Val → Int
+  | .int i => i
+  | .bool b => if b then 1 else 0
+  | .flt _ => 0
+
+def toF : Val → Float
+  | .int i => Float.ofInt i
+  | .bool b => if b then 1.0 else 0.0
+  | .flt x => x
+
+def truthy : Val → Bool
+  | .int i => i != 0
+  | .bool b => b
+  | .flt x => x != 0.0
+
+def arith (fi : Int → Int → Int) (ff : Float → Float → Float) (a b : Val) : Val :=
+  if isFlt a || isFlt b then .flt (ff (toF a) (toF b)) else .int (fi (toI a) (toI b))
+
+def vlt (a b : Val) : Bool := if isFlt a || isFlt b then toF a < toF b else toI a < toI b
+
+/-- the Python functions the harness registers, by id -/
+def applyOp (op : String) (args : List Val) : Option Val :=
+  match op, args with
+  | "add", [a, b] => some (arith (· + ·) (· + ·) a b)
+  | "sub", [a, b] => some (arith (· - ·) (· - ·) a b)
+  | "mul", [a, b] => some (arith (· * ·) (· * ·) a b)
+  | "neg", [a] => some (match a with | .flt x => .flt (-x) | v => .int (-(toI v)))
+  | "max2", [a, b] => some (if vlt a b then b else a)
+  | "max3", [a, b, c] => some (let r := if vlt a b then b else a; if vlt r c then c else r)
+  | "ite", [c, a, b] => some (if truthy c then a else b)
+  | "lt", [a, b] => some (.bool (vlt a b))
+  | "and", [a, b] => some (if truthy a then b else a)
+  | "not", [a] => some (.bool (!truthy a))
+  | "id", [a] => some a
+  | _, _ => none
+
+/-! ### parsing of the request pieces -/
+
+def parseAssoc {β : Type} (pv : String → Option β) (s : String) : Option (List (Str × β)) :=
+  if s = "-" then some [] else
+  (s.splitOn ",").mapM (fun e => match e.splitOn "=" with
+    | [k, v] => do let k ← decodeText k; let v ← pv v; some (k, v)
+    | _ => none)
+
+def parseMapping (s : String) : Option (List (Str × Prim)) :=
+  if s = "-" then some [] else
+  (s.splitOn ";").mapM (fun e => match e.splitOn "=" with
+    | [k, v] => do let k ← decodeText k; let v ← parseNode v; some (k, v)
+    | _ => none)
+
+def lookup {β : Type} (l : List (Str × β)) (k : Str) : Option β := (l.find? (fun e => e.1 == k)).map (·.2)
+
+def parseLitTypes (s : String) : Option (Nat × Nat × Nat) :=
+  match s.splitOn "." with
+  | [a, b, c] => do let a ← parseNat a; let b ← parseNat b; let c ← parseNat c; some (a, b, c)
+  | _ => none
+
+def parseNames (s : String) : Option (List Str) := parseList decodeText s
+
+def parseTuples (s : String) : Option (List (List Val)) :=
+  (s.splitOn ";").mapM (fun t => parseList parseVal t)
+
+/-- prefix list → tree (by arity), for evaluation -/
+def parseTreeGo : Nat → List Prim → Option (Tree × List Prim)
+  | 0, _ => none
+  | _ + 1, [] => none
+  | fuel + 1, p :: rest =>
+    let rec kids (n : Nat) (l : List Prim) : Option (List Tree × List Prim) :=
+      match n with
+      | 0 => some ([], l)
+      | n + 1 => match parseTreeGo fuel l with
+        | none => none
+        | some (t, l') => (kids n l').map (fun (ts, l'') => (t :: ts, l''))
+    (kids p.arity rest).map (fun (ts, l) => (.node p ts, l))
+
+def parseTree (l : List Prim) : Option Tree :=
+  match parseTreeGo (l.length + 1) l with
+  | some (t, []) => some t
+  | _ => none
+
+def mkEnv (funs : List (Str × String)) (vars : List (Str × Val)) : Env where
+  funs := fun x => (lookup funs x).map applyOp
+  vars := lookup vars
+  lit := fun x => (parseLit x).map litVal
+
+def showRes : Option Val → String
+  | some v => showVal v
+  | none => "none"
+
+/-- the psets of an `adf` request: groups of five tokens -/
+def parseCPsets : List String → Option (List (CPset × Tree))
+  | [] => some []
+  | name :: args :: funs :: vars :: nodes :: rest => do
+    let name ← decodeText name
+    let args ← parseNames args
+    let f ← parseAssoc some funs
+    let v ← parseAssoc parseVal vars
+    let l ← parseNodes nodes
+    let t ← parseTree l
+    let more ← parseCPsets rest
+    some ((⟨name, args, mkEnv f v⟩, t) :: more)
+  | _ => none
 
 def handle : List String → String
+  | ["str", nodes] =>
+    match parseNodes nodes with
+    | some l => encodeText (strBuilder l)
+    | none => "bad-op"
+  | ["render", nodes] =>
+    -- the recursive text of the parsed tree (must equal `str`)
+    match parseNodes nodes with
+    | some l => match parseTree l with
+      | some t => encodeText (render t)
+      | none => "none"
+    | none => "bad-op"
+  | ["src", args, nodes] =>
+    match (do let a ← parseNames args; let l ← parseNodes nodes; pure (a, l)) with
+    | some (a, l) => encodeText (compileSrc a l)
+    | none => "bad-op"
+  | ["tokens", text] =>
+    match decodeText text with
+    | some s => showList encodeText (tokens s)
+    | none => "bad-op"
+  | ["fs", sub, mapping, lt, text] =>
+    match (do let sp ← parseSub sub; let m ← parseMapping mapping; let t ← parseLitTypes lt
+              let s ← decodeText text; pure (sp, m, t, s)) with
+    | some (sp, m, (ti, tb, tf), s) =>
+      match fromString ⟨lookup m, mkSub sp, evLit ti tb tf⟩ s with
+      | some l => showNodes l
+      | none => "none"
+    | none => "bad-op"
+  | ["ev", funs, vars, args, nodes, tuples] =>
+    match (do let f ← parseAssoc some funs; let v ← parseAssoc parseVal vars; let a ← parseNames args
+              let l ← parseNodes nodes; let tu ← parseTuples tuples; pure (f, v, a, l, tu)) with
+    | some (f, v, a, l, tu) =>
+      match parseTree l with
+      | some t => ",".intercalate (tu.map (fun vals => showRes (compile (mkEnv f v) a t vals)))
+      | none => "none"
+    | none => "bad-op"
+  | "adf" :: tuples :: rest =>
+    match (do let tu ← parseTuples tuples; let pts ← parseCPsets rest; pure (tu, pts)) with
+    | some (tu, pts) =>
+      match compileADF pts with
+      | some f => ",".intercalate (tu.map (fun vals => showRes (f vals)))
+      | none => "none"
+    | none => "bad-op"
   | _ => "bad-op"
 
 end DriverC12
